@@ -631,7 +631,21 @@ func history(tc tcase) {
 		select {
 		case <-pc.seen:
 			if len(w.net.Conns()) != before+1 {
-				rep.Violation("limit-exceeded-probe-"+tc.Kind, fmt.Sprintf("query %d was admitted on an existing connection although all %d live connections already carried %d unanswered queries", live*L+1, live, L), wit)
+				// admitted by an existing connection: a violation iff that connection already
+				// carried L withheld probe queries. (A connection that was still waiting for
+				// the reply of an abandoned query when the snapshot was taken may have become
+				// idle since; it then legitimately admits one.)
+				c := w.connOf(pc.seq)
+				n := 0
+				if c != nil {
+					n = w.distinctOn(c) - base[c]
+				}
+				if n > L {
+					wit["admitting_conn"] = c.ID
+					rep.Violation("limit-exceeded-probe-"+tc.Kind, fmt.Sprintf("query %d was admitted on connection %d, which already carried %d unanswered queries (limit %d)", live*L+1, c.ID, n-1, L), wit)
+				} else {
+					rep.Count("overflow_probe_admitted_by_connection_that_became_idle_late", 1)
+				}
 			} else {
 				rep.Count("capacity_probes_ok", 1)
 				rep.Nontrivial(fmt.Sprintf("probe|%s|s%v|L%d|live%d|seed%d", tc.Kind, tc.Stream, L, live, tc.Seed))
